@@ -298,6 +298,28 @@ def rule_cond(ctx):
         loops = [s for s in walk_local(f.node) if isinstance(s, ast.For)]
         ctx.ob('C11.cond', f'{f.fq}:iterates-snapshot', len(loops) == 1 and norm(loops[0].iter) != 'self._waiting_threads',
                'must not iterate the live waiting list (a routine re-parking itself would be rescheduled forever)', f.node, mod)
+    # who is parked: the routine the clock plays, i.e. the root of the parent chain (a routine nested three deep must park its
+    # outermost caller, not its immediate parent, which the clock would then wake on its own)
+    tt = ctx.repo.cls('sc3.base.stream:TimeThread')
+    tp = tt.properties.get('thread_player') if hasattr(tt, 'properties') else None
+    tp = tp or tt.methods.get('thread_player')
+    ctx.require(tp is not None, 'C11.cond', 'TimeThread.thread_player getter not found')
+    rets = [r for r in walk_local(tp.node) if isinstance(r, ast.Return) and r.value is not None]
+    vals = [norm(r.value) for r in rets]
+    loc = {}
+    for a in walk_local(tp.node):
+        if isinstance(a, ast.Assign) and isinstance(a.targets[0], ast.Name):
+            loc[a.targets[0].id] = norm(a.value)
+    climbs_rec = any(isinstance(r.value, ast.Attribute) and r.value.attr == 'thread_player' and
+                     (norm(r.value.value) == 'self.parent' or loc.get(norm(r.value.value)) == 'self.parent') for r in rets)
+    climbs_loop = any(isinstance(w, ast.While) and any(isinstance(a, ast.Assign) and isinstance(a.targets[0], ast.Name) and
+                                                       norm(a.value) == f'{a.targets[0].id}.parent' for a in ast.walk(w))
+                      for w in walk_local(tp.node))
+    stops_short = [v for v in vals if v not in ('self', 'self._thread_player') and not v.endswith('.thread_player') and not climbs_loop]
+    ctx.ob('C11.cond', f'{tt.fq}.thread_player:climbs-to-root', 'self._thread_player' in vals and 'self' in vals and (climbs_rec or climbs_loop)
+           and not stops_short,
+           f'the player of a nested routine is its parent\'s player, recursively up to the routine whose parent is the main thread '
+           f'(returns found: {vals}); stopping at the immediate parent parks the wrong routine at depth 3', tp.node, tt.module)
     f = c.methods['signal']
     ifs = [s for s in walk_local(f.node) if isinstance(s, ast.If)]
     ok = len(ifs) == 1 and norm(ifs[0].test) == 'self.test' and any(isinstance(s, ast.For) for s in ifs[0].body)
@@ -377,6 +399,8 @@ def run(ctx):
 
 
 MUTANTS = [
+    dict(rule='C11.cond', name='thread_player stops at the immediate parent (seed C11-e)', file='sc3/base/stream.py',
+         old="                return self.parent.thread_player", new="                return self.parent._thread_player or self.parent"),
     dict(rule='C11.cond', name='Condition caches the value of a callable test', file='sc3/base/stream.py',
          old="        if callable(self._test):\n            return self._test()\n        else:\n            return self._test", new="        if callable(self._test):\n            self._test = self._test()\n        return self._test"),
     dict(rule='C11.fsm', name='(fix reverted) next() re-entered from the running routine', file='sc3/base/stream.py',
